@@ -266,7 +266,9 @@ def evalArith (op : Arith) : Val → Val → Option Val
 
 /-- `eval_modulo` -/
 def evalMod : Val → Val → Option Val
-  | .int a, .int b => if b = 0 then none else (chk (Int.tmod a b)).map .int
+  -- `checked_rem`: no result for a zero divisor and for `i64::MIN % -1` (the overflow case of the
+  -- matching division), which the engine turns into NULL
+  | .int a, .int b => if b = 0 || (a == -(2 ^ 63 : Int) && b == -1) then none else (chk (Int.tmod a b)).map .int
   | .flt a, .flt b => if fIsZero b then none else some (.flt (fRem a b))
   | .int a, .flt b => if fIsZero b then none else some (.flt (fRem (i64ToF64 a) b))
   | .flt a, .int b => if b = 0 then none else some (.flt (fRem a (i64ToF64 b)))
